@@ -295,6 +295,15 @@ CHECKS["C22"] = dict(
     shards_quick=16, budget_quick=50, shards_thorough=16, budget_thorough=480, release_pass=False, miri=False,
     assumptions=WALLET_ASSUME, crash_is_violation=True)
 
+CHECKS["C24"] = dict(
+    level="exploration",
+    technique="security-gate monitor at the RPC boundary: generated PSBTs (mostly one defect at a time) are handed to the real `ord wallet offer accept`; each clause of the statement is evaluated independently from the PSBT, the chain and the index; the recorded history must contain walletprocesspsbt(sign=true) or sendrawtransaction only if every clause holds, and a broadcast only if the buyer signatures came back unchanged",
+    level_text="Exploration over PSBTs: wallets holding single-inscription, double-inscription, runic, inscribed-and-runic and cardinal outputs; PSBTs with 0-2 wallet inputs (right / wrong kind / right plus another), 0-3 foreign inputs (witness-signed, signed with a signature the mock will replace, scriptSig-signed, doubly signed, unsigned), seller input pre-signed, payment off by +-1 or +-2..900 sat or split over two wallet addresses, inputs in random order; about 10^2 PSBTs per quick run. mockcore's PSBT model (witness_utxo from its chain, 64 zero bytes as signature, finalize from the unsigned transaction) bounds what can be expressed; mainnet parameters, as in the repository's own offer tests.",
+    rule="clauses: exactly one input is an unspent wallet output; the index lists exactly the named inscription and no runes on it; sum of outputs to wallet addresses minus that input's value = --amount; the wallet input carries no signature; every other input carries exactly one of final_script_sig / final_script_witness. If any clause fails: no walletprocesspsbt with sign=true and no sendrawtransaction may appear in the RPC history of the command and the mempool stays empty. If all hold but a buyer signature differs from what the node returns after signing: no broadcast. A refused valid offer is recorded, not judged. distinct = (wallet input kinds, foreign signature kinds, payment delta sign, pre-signed).",
+    floors={"evaluations": 60, "wallets": 8, "offers_satisfying_every_clause": 15, "valid_offers_signed": 10, "valid_offers_broadcast": 5, "invalid_offers_refused": 30, "offers_violating_balance-change-differs-from-amount": 8, "offers_violating_not-exactly-one-wallet-input": 5, "offers_violating_wallet-input-does-not-hold-exactly-the-named-inscription": 3, "offers_violating_foreign-input-not-properly-signed": 5, "offers_violating_wallet-input-already-signed": 3, "changed_buyer_signature_not_broadcast": 2},
+    shards_quick=16, budget_quick=50, shards_thorough=16, budget_thorough=480, release_pass=False, miri=False,
+    assumptions=WALLET_ASSUME, crash_is_violation=True)
+
 codec("C27",
       "round-trip monitor: generated Inscription values written with ord's reveal-script builder (one or several per script, several inputs, arbitrary script prefix/suffix, five witness shapes incl. annex) and parsed back with ParsedEnvelope::from_transaction; independent encoders for the compact pointer / id / rune-commitment values; totality monitor on damaged scripts and random witnesses (every accessor of the result is called); a dead shard process (stack overflow, allocation failure) is a violation",
       "Exploration over field combinations and sizes (1, 75/76, 255/256, 519-521, 1039-1041, 65535/65536, up to 400 kB; values that look like script), 0-8 inscriptions per script, 1-3 inputs; pointer and index byte-length boundaries enumerated. Witness bytes are sampled (8 hostile script classes), not enumerated.",
